@@ -141,3 +141,50 @@ Example C16_ex_rounds_mismatch_is_an_error :
     [mkMember QcF 1 1 1 7%N [8%N] 0%N [9%N] [None] false (mkProof 1%N [3%N] 10%N 11%N 12%N 4%N 5%N [13%N] [14%N]) false
               (mkChals QcF (q 3) (q 5) [q 11] (q 7)) (fun _ _ _ => 0%Qc)] [q 2] true = Fail.
 Proof. vm_compute. reflexivity. Qed.
+
+(** ** allocation: every vector is sized by the statement and by the lengths of the proof's own vectors *)
+From BP Require Import Proofs.AllocP.
+Local Open Scope nat_scope.
+
+(** the intermediate vectors of the per-proof body: [s] and [d] have one entry per generator pair of the STATEMENT
+    (whatever round count the proof carries: the loop bound is the statement's [m * bits]) *)
+Theorem C16_s_and_d_sized_by_statement : forall (K : Fld) bits m (s0 z2 : K) (esq : list K),
+  length (s_loop K (m * bits) s0 esq) = Nat.max 1 (m * bits) /\
+  length (d_vec K bits m z2) = Nat.max 1 m * Nat.max 1 bits.
+Proof. intros K bits m s0 z2 esq. split; [apply s_loop_length|apply d_vec_length]. Qed.
+Print Assumptions C16_s_and_d_sized_by_statement.
+
+(** what one proof contributes to the final product, for ARBITRARY proofs and challenges *)
+Theorem C16_per_proof_scalars_sized : forall (K : Fld) bits promises (pf : vproof K) (ch : chals K) (w : K),
+  let t := proof_terms K bits promises pf ch w in
+  let m := length promises in
+  length (t_gi t) = Nat.min (Nat.max 1 (m * bits)) (Nat.max 1 m * Nat.max 1 bits) /\
+  length (t_hi t) = length (t_gi t) /\
+  length (t_V t) = m /\
+  length (t_Gb t) = length (v_d1 pf) /\
+  length (t_L t) = length (c_es ch) /\
+  length (t_R t) = length (c_es ch).
+Proof. exact proof_terms_sizes. Qed.
+Print Assumptions C16_per_proof_scalars_sized.
+
+(** the final product of a chunk, whenever the verifier gets that far (arbitrary members, weights, mode):
+    static scalars = 2 * (largest m * bits of the chunk) + padding, dynamic scalars = the members' own shares
+    (one per commitment, three points, one per L and per R) + extension degree + 1 *)
+Theorem C16_final_product_sized : forall (K : Fld) ofN mode ms ws z st dyn,
+  snd (verify_chunk K ofN mode ms ws z) = Some (st, dyn) ->
+  exists max_mn max_index pad first,
+    consistency K ms = Some (max_mn, max_index) /\ hd_error ms = Some first /\
+    (let mx := nth max_index ms first in
+     generator_padding (N.of_nat (mb_bits K mx)) (N.of_nat (mb_m K mx)) (N.of_nat (mb_cap K mx)) = Some pad) /\
+    length st = 2 * max_mn + N.to_nat pad /\
+    length dyn = chunk_dyn K ms + mb_T K first + 1.
+Proof. exact verify_chunk_sizes. Qed.
+Print Assumptions C16_final_product_sized.
+
+(** after the round-count guard a member's share is fixed by its STATEMENT alone: m + 3 + 2 log2 (m * bits) *)
+Theorem C16_member_share_fixed_by_statement : forall (K : Fld) (mb : member K),
+  rounds_ok K mb = true -> length (c_es (mb_ch K mb)) = length (p_li (mb_proof K mb)) ->
+  length (mb_promises K mb) = length (mb_Venc K mb) ->
+  member_dyn K mb = mb_m K mb + 3 + 2 * Nat.log2 (mb_N K mb).
+Proof. exact member_share_fixed_by_statement. Qed.
+Print Assumptions C16_member_share_fixed_by_statement.
